@@ -411,6 +411,17 @@ def _short(th):
     return f.denominator <= 1024 and abs(f.numerator) <= 1024
 
 
+def _data_short(A):
+    """every stored value has at most 20 significant bits (real and imaginary part): with a short dyadic theta all products the
+    kernels form are exact in binary64 (also under power-of-two scalings); false e.g. after a decimal scaling such as 1e-20"""
+    d = np.asarray(A.data).ravel()
+    parts = np.concatenate([d.real, d.imag]) if np.iscomplexobj(d) else d.astype(float)
+    if not np.isfinite(parts).all():
+        return False
+    m, _ = np.frexp(parts)
+    return bool((np.ldexp(m, 20) == np.round(np.ldexp(m, 20))).all())
+
+
 class Near(Exception):
     pass
 
@@ -424,13 +435,13 @@ def _ge(lhs, rhs, exact):
     return lhs >= rhs
 
 
-def classical_expected(rows, theta, norm, literal):
+def classical_expected(rows, theta, norm, literal, data_exact=True):
     """per row: (set of columns that must be present, set of columns that may be either way).
     norm 'abs': |a_ij| >= theta * max_{k != i} |a_ik| (compared on squares); 'min': -a_ij >= theta * max_{k != i} (-a_ik);
     literal=True takes the maximum over the stored off-diagonal entries only (it can be negative for 'min'),
     literal=False floors it at zero as the kernel does."""
     th = Fr(theta)
-    exact = _short(theta)
+    exact = _short(theta) and data_exact
     exp, free = [], []
     for i, r in enumerate(rows):
         keep, fr_ = set(), set()
@@ -563,8 +574,9 @@ def contract(A, S, diag_rows=None):
 # classical / symmetric: public functions judged by the rule oracle
 # ------------------------------------------------------------------------------------------------
 
-def block_reduce(A, norm):
-    """nodal CSR of the block-wise reduced values (strength.py:193-212), exact on dyadic data"""
+def block_reduce(A, norm, drop=True):
+    """nodal CSR of the block-wise reduced values (strength.py:193-212), exact on dyadic data; drop=False leaves out the
+    absolute `data[np.abs(data) < 1e-16] = 0` step (finding classical-bsr-drop-below-1e-16)"""
     d = np.asarray(A.data)
     if norm == 'abs':
         data = np.max(np.max(np.abs(d), axis=1), axis=1)
@@ -572,21 +584,22 @@ def block_reduce(A, norm):
         data = np.min(np.min(d, axis=1), axis=1)
     else:
         data = np.sum(np.sum((np.conjugate(d) * d).real, axis=1), axis=1)
-    data = np.where(np.abs(data) < 1e-16, 0.0, data)
+    if drop:
+        data = np.where(np.abs(data) < 1e-16, 0.0, data)
     N = A.shape[0] // A.blocksize[0]
     return gen.csr_from_arrays(N, A.indptr, A.indices, np.asarray(data, dtype=float))
 
 
-def expected_classical(A, theta, norm, block, literal):
-    """expected nodal non-zero pattern (list of sets), undecided entries, rows where the diagonal must be present"""
+def expected_classical(A, theta, norm, block, literal, drop=True):
+    """expected nodal non-zero pattern (list of sets) and the undecided entries"""
+    dex = _data_short(A)
     if A.format == 'bsr' and block:
-        R = block_reduce(A, norm)
-        exp, free = classical_expected(exact_rows(R), theta, 'min' if norm == 'min' else 'abs', literal)
-        return exp, free
+        R = block_reduce(A, norm, drop=drop)
+        return classical_expected(exact_rows(R), theta, 'min' if norm == 'min' else 'abs', literal, dex)
     if A.format == 'bsr':
         bs = A.blocksize[0]
         C = gen.int32csr(A.tocsr())
-        e1, f1 = classical_expected(exact_rows(C), theta, norm, literal)
+        e1, f1 = classical_expected(exact_rows(C), theta, norm, literal, dex)
         N = A.shape[0] // bs
         exp = [set() for _ in range(N)]
         free = [set() for _ in range(N)]
@@ -596,7 +609,7 @@ def expected_classical(A, theta, norm, block, literal):
         for I in range(N):
             free[I] -= exp[I]
         return exp, free
-    return classical_expected(exact_rows(A), theta, norm, literal)
+    return classical_expected(exact_rows(A), theta, norm, literal, dex)
 
 
 def expected_symmetric(A, theta):
@@ -610,7 +623,7 @@ def expected_symmetric(A, theta):
         # rule on Frobenius norms f = sqrt(fro2): f_ij^2 >= theta^2 f_ii f_jj  <=>  fro2_ij^2 >= theta^4 fro2_ii fro2_jj
         th = Fr(theta)
         sq = all(_is_square(frac(v)) for v in fro2)
-        exact = _short(theta) and sq
+        exact = _short(theta) and sq and _data_short(A)
         f2 = {}
         for I in range(N):
             for jj in range(A.indptr[I], A.indptr[I + 1]):
@@ -632,7 +645,7 @@ def expected_symmetric(A, theta):
             exp.append(keep)
             free.append(fr_)
         return exp, free, False
-    e, f = symmetric_expected(exact_rows(A), theta)
+    e, f = symmetric_expected(exact_rows(A), theta, exact_hint=_data_short(A))
     return e, f, False
 
 
@@ -698,46 +711,60 @@ def _judge_family(ctx, A, api, norm='abs', block=True, thetas=THETAS, tag=''):
         except Exception as ex:
             viol(f'raised {type(ex).__name__}: {ex}')
             return results
-        # rule: expected pattern
+        # rule: expected pattern.  exp = the property read literally; variants that explain the recorded findings:
+        #   v_floor: signed norm with the maximum floored at 0 (classical-min-positive-offdiag)
+        #   v_drop : additionally block-wise reduced values below 1e-16 zeroed (classical-bsr-drop-below-1e-16)
+        bsr_block = api == 'classical' and A.format == 'bsr' and block
         if api == 'classical':
-            exp, free = expected_classical(A, th, norm, block, literal=True)
-            exp_code, _ = expected_classical(A, th, norm, block, literal=False) if norm == 'min' else (exp, None)
-            ones_only = False
+            exp, free = expected_classical(A, th, norm, block, literal=True, drop=False)
+            v_floor, f1 = expected_classical(A, th, norm, block, literal=False, drop=False) if norm == 'min' else (exp, free)
+            v_drop, f2 = expected_classical(A, th, norm, block, literal=False, drop=True) if bsr_block else (v_floor, f1)
+            free = [a | b | c for a, b, c in zip(free, f1, f2)]
         else:
-            exp, free, ones_only = expected_symmetric(A, th)
-            exp_code = exp
+            exp, free, _ones = expected_symmetric(A, th)
+            v_floor = v_drop = exp
         for fr_ in free:
             ctx.near_skipped += len(fr_)
-        # diagonal clause: for the block-wise 'min' reduction "the input has a diagonal entry" = the diagonal block has a non-zero scalar diagonal
+
+        def explains(V, i):
+            return not (V[i] - got[i] - free[i]) and not (got[i] - V[i] - free[i])
+
+        def classify(i):
+            if api != 'classical':
+                return None
+            if norm == 'min' and explains(v_floor, i):
+                return 'classical-min-positive-offdiag'
+            if bsr_block and explains(v_drop, i):
+                return 'classical-bsr-drop-below-1e-16'
+            return None
         fails, D = contract(A, S)
+        got = [set(int(j) for j in np.nonzero(D[i])[0]) for i in range(D.shape[0])] if D is not None else []
         for code, msg in fails:
             fk = None
-            if code == 'diag-dropped' and api == 'classical' and A.format == 'bsr' and block and norm == 'min':
-                # finding: the block-wise 'min' reduction of a diagonal block whose smallest entry is 0 gives 0, the nodal diagonal is eliminated
-                R = block_reduce(A, 'min')
-                bad = [i for i in range(R.shape[0]) if D is not None and D[i, i] == 0 and nodal_patterns(A)[2][i]]
-                if bad and all(R[i, i] == 0 for i in bad):
+            if code == 'diag-dropped' and bsr_block and D is not None:
+                Rn, Rd = block_reduce(A, norm, drop=False), block_reduce(A, norm, drop=True)
+                bad = [i for i in range(Rn.shape[0]) if D[i, i] == 0 and nodal_patterns(A)[2][i]]
+                if bad and norm == 'min' and all(Rn[i, i] == 0 for i in bad):
+                    # finding: the block-wise 'min' reduction of a diagonal block whose smallest entry is 0 gives 0
                     fk = 'classical-bsr-min-zero-block-minimum'
+                elif bad and all(Rd[i, i] == 0 for i in bad):
+                    fk = 'classical-bsr-drop-below-1e-16' if any(Rn[i, i] != 0 for i in bad) else None
+                    if norm == 'min' and all(Rn[i, i] == 0 or abs(Rn[i, i]) < 1e-16 for i in bad):
+                        fk = fk or 'classical-bsr-min-zero-block-minimum'
             viol(msg, fkey=fk)
         if D is None:
             return results
         results.append((th, D))
         N = D.shape[0]
-        got = [set(int(j) for j in np.nonzero(D[i])[0]) for i in range(N)]
         for i in range(N):
             miss = exp[i] - got[i] - free[i]
             more = got[i] - exp[i] - free[i]
             if not miss and not more:
                 continue
-            fk = None
-            if api == 'classical' and norm == 'min':
-                # known-finding candidate: with the signed norm a positive off-diagonal entry is never strong (the maximum is
-                # floored at 0): only discrepancies that vanish under the floored rule AND concern positive entries
-                if not (exp_code[i] - got[i] - free[i]) and not (got[i] - exp_code[i] - free[i]):
-                    fk = 'classical-min-positive-offdiag'
-                elif (A.format == 'bsr' and block and i in (exp_code[i] - got[i]) and len(exp_code[i] - got[i]) == 1
-                      and not (got[i] - exp_code[i] - free[i]) and block_reduce(A, 'min')[i, i] == 0):
-                    fk = 'classical-bsr-min-zero-block-minimum'
+            fk = classify(i)
+            if (fk is None and bsr_block and norm == 'min' and i in (v_drop[i] - got[i]) and len(v_drop[i] - got[i]) == 1
+                    and not (got[i] - v_drop[i] - free[i]) and block_reduce(A, 'min')[i, i] == 0):
+                fk = 'classical-bsr-min-zero-block-minimum'
             what = (f'row {i}: entries {sorted(miss)} satisfy the rule but are missing' if miss else
                     f'row {i}: entries {sorted(more)} do not satisfy the rule but are present')
             viol(what, fkey=fk, row=i, expected=sorted(exp[i]), got=sorted(got[i]))
@@ -745,17 +772,12 @@ def _judge_family(ctx, A, api, norm='abs', block=True, thetas=THETAS, tag=''):
         # theta = 0 keeps the whole (non-zero) pattern
         if th == 0:
             _, Z, _ = nodal_patterns(A)
-            if api == 'classical' and A.format == 'bsr' and block:
-                Z = block_reduce(A, norm).toarray() != 0
+            if bsr_block:
+                Z = block_reduce(A, norm, drop=False).toarray() != 0
             for i in range(N):
                 lost = set(int(j) for j in np.nonzero(Z[i])[0]) - got[i]
                 if lost:
-                    fk = None
-                    if api == 'classical' and norm == 'min' and not (exp_code[i] - got[i]) and not (got[i] - exp_code[i]):
-                        fk = 'classical-min-positive-offdiag'
-                    elif api == 'classical' and norm == 'min' and A.format == 'bsr' and block and lost == {i}:
-                        fk = 'classical-bsr-min-zero-block-minimum'
-                    viol(f'theta = 0 does not keep the whole pattern: row {i} loses {sorted(lost)}', fkey=fk, row=i)
+                    viol(f'theta = 0 does not keep the whole pattern: row {i} loses {sorted(lost)}', fkey=classify(i), row=i)
                     break
         # monotone in theta
         if prev is not None:
